@@ -4,6 +4,7 @@ import IceTie.AgentSelector
 import IceProofs.AgentC20Trace
 import IceProofs.Sys2C20Rest
 import IceProofs.Sys2C20Vocab
+import IceProofs.Sys2C20Auto
 /-!
 # C20 — renomination: the latest nomination wins (single-agent clauses)
 
@@ -20,6 +21,9 @@ Two agents (`IceModel.Sys2`, last section): `C20_accepted_le_issued`, `C20_contr
 exchange; the one hypothesis that remains beyond scope conditions is "the exchange of the highest nomination completed"
 (a lost nomination is not retransmitted — witness, replayed on the real agents; see notes/C20sys.md).  The former
 counterexamples are regression examples.
+AUTOMATIC renomination (`WithAutomaticRenomination`, last section): the controlling selector's own nominations are part of
+the log `issued` the two-agent theorems speak about (`C20_issues_vocabulary`); `C20_auto_only_controlling_enabled`,
+`C20_auto_values_increase`.
 Not here: `C20_codec` (24-bit attribute codec, proved with C16's codec model).
 -/
 namespace IceProps.C20
@@ -624,8 +628,10 @@ theorem C20_history_vocabulary (a : Agent) (e : Ev) :
     · rintro ⟨_, _, h, _⟩; cases h
 
 /-- **C20_accepted_le_issued** — in every state of every exchange, the highest value B has accepted was issued by A
-(`RenominateCandidate` answered `ok` with that value).  No credential hypothesis: the system is closed, a nomination
-value enters the wire only through `RenominateCandidate` (`IceProofs.C20S.step_out_nom`, any state, any event). -/
+(`RenominateCandidate` answered `ok` with that value, or A's automatic check nominated with it: the log `issued`
+accumulates `IceProofs.C20S.issuesOf`, see `C20_issues_vocabulary`).  No credential hypothesis: the system is closed, a
+nomination value enters the wire only as a nomination the emitting agent issues in that very step
+(`IceProofs.C20S.step_out_nom`, any state, any event). -/
 theorem C20_accepted_le_issued (s0 : Sys) (pre ex : List SysEv) (s1 s : Sys) (hs1 : s1 = Sys.runs s0 pre)
     (hs : s = Sys.runs s1 ex) (hf : Fresh s0) (he : Established s1) (hex : Exchange s1 ex)
     (hz : PositiveValues (hist s1 ex).issued) (v : Nat) (hv : s.b.lastNomination = some v) :
@@ -703,8 +709,10 @@ theorem C20_quiescent_agreement (s0 : Sys) (pre ex : List SysEv) (s1 s : Sys)
   exact quiescent_agreement hf pre ex he hex hz x hq hmax hA
 
 /-- **C20_quiesced_rests** — `Quiesced` is final: from a quiesced state of an exchange, along EVERY continuation `ex2`
-in which A does not call `RenominateCandidate` again (`ExchangeK rests`: no Restart / Close / RenominateCandidate among
-the API events, every state a `Session`) — any deliveries, duplicates, drops, ticks, signalling, data — the state stays
+in which A issues no nomination again — it does not call `RenominateCandidate` (`ExchangeK rests`: no Restart / Close /
+RenominateCandidate among the API events, every state a `Session`) and its automatic check does not fire (`hno`: the log
+of issued nominations is the same at the end of `ex2`; with `WithAutomaticRenomination` off that is automatic) — any
+deliveries, duplicates, drops, ticks, signalling, data — the state stays
 quiesced; a pair A has selected stays selected (same id, same addresses); B's highest accepted value stays, and once B
 has accepted a value a pair B has selected stays selected.  So with conjuncts (1) and (2) of `Quiesced` no datagram in
 flight can still move an agreed selection.  (Where nothing is selected yet, or B has accepted no value, an ordinary
@@ -712,7 +720,7 @@ nomination may still select: that is the ordinary ICE nomination.) -/
 theorem C20_quiesced_rests (s0 : Sys) (pre ex ex2 : List SysEv) (s1 s s2 : Sys) (hs1 : s1 = Sys.runs s0 pre)
     (hs : s = Sys.runs s1 ex) (hs2 : s2 = Sys.runs s ex2) (hf : Fresh s0) (he : Established s1)
     (hex : Exchange s1 ex) (hz : PositiveValues (hist s1 ex).issued) (hq : Quiesced s)
-    (hex2 : ExchangeK rests s ex2) :
+    (hex2 : ExchangeK rests s ex2) (hno : (histFrom (hist s1 ex) s ex2).issued = (hist s1 ex).issued) :
     Quiesced s2 ∧ (∀ id, s.a.selected = some id → s2.a.selected = some id) ∧
     (∀ x, selAddrs s.a = some x → selAddrs s2.a = some x) ∧
     s2.b.lastNomination = s.b.lastNomination ∧
@@ -720,7 +728,7 @@ theorem C20_quiesced_rests (s0 : Sys) (pre ex ex2 : List SysEv) (s1 s s2 : Sys) 
       (∀ id, s.b.selected = some id → s2.b.selected = some id) ∧
       (∀ x, selAddrs s.b = some x → selAddrs s2.b = some x)) := by
   subst hs1 hs hs2
-  exact quiesced_rests hf pre ex ex2 he hex hz hq hex2
+  exact quiesced_rests hf pre ex ex2 he hex hz hq hex2 hno
 
 end TwoAgents
 
@@ -1005,7 +1013,7 @@ theorem C20_success_inline (a : Agent) (now : Nat) (m : Msg) (l r : Cand) (src :
           | some p =>
             let d := successDecide ((a.takePending now m.tid).1.modPair p.id fun p =>
                 { p with state := .succeeded, gResp := true, gRespUC := p.gRespUC || pd.useCand }) pd p
-            (d.1.modPair p.id fun p => { p with respRecv := p.respRecv + 1 }, d.2) :=
+            (d.1.modPair p.id (Pair.gotResponse now pd.ts), d.2) :=
   handleSuccess_nf a now m l r src
 
 /-- non-vacuity: a response to renomination 6 after 5 was answered is followed and recorded, to 5 after 6 ignored; a
@@ -1078,5 +1086,304 @@ example : IceGen.controlledSelector_HandleBindingRequest true true false false t
          Eff.call "sendBindingSuccess" [], Eff.call "pingCandidate" [], Eff.call "customHandler" []] ∧
     IceGen.controlledSelector_HandleBindingRequest true false true false false false 4 true false true
       = [Eff.call "updateRequestReceived" [], Eff.call "shouldAcceptNomination" [], Eff.call "sendBindingSuccess" []] := by decide
+
+/-! ## Automatic renomination (`WithAutomaticRenomination`): the nominations the agent issues BY ITSELF
+
+`controllingSelector.checkForAutomaticRenomination` (model: `Agent.autoCheck`, inside every tick while a pair is selected)
+compares the selected pair with the best succeeded pair (`findBestCandidatePair`, `shouldRenominate`: relay → direct, a
+round-trip time better by more than 10 ms, a quality score better by more than 15 % — the float64 arithmetic is
+`IceModel.SoftFloat`) and nominates the better one with the next value of the generator given to `WithRenomination` (a
+counter here).  The two-agent theorems above are stated over the log `hist.issued`, which accumulates
+`IceProofs.C20S.issuesOf`: the entries a step appends to the ghost log `Agent.nomIssued` — by `RenominateCandidate` AND by
+the automatic check.  So `C20_quiescent_agreement` covers exchanges whose nominations are issued automatically (example
+below). -/
+section Automatic
+open IceProofs.C20S
+
+/-- **C20_issues_vocabulary** — what the log of issued nominations records (any state, any event): the step appends
+`issuesOf a e` to the ghost log; for `RenominateCandidate` that is exactly what `issueOf` describes (`C20_history_vocabulary`);
+every datagram of the step that carries a nomination value is a USE-CANDIDATE request from the local to the remote address of
+an entry of `issuesOf a e` with that (positive) value; and for every other event the entries are the automatic check's: their
+values are consecutive draws from the counter of the value generator, which moves by their number. -/
+theorem C20_issues_vocabulary (a : Agent) (e : Ev) :
+    (step a e).1.nomIssued = a.nomIssued ++ issuesOf a e ∧
+    (∀ now la ri v, issuesOf a (.renominate now la ri v) = (issueOf a (.renominate now la ri v)).toList) ∧
+    (∀ f t m v, Out.dgram f t m ∈ (step a e).2 → m.nom = some v →
+      m.cls = 0 ∧ m.useCand = true ∧ 0 < v ∧ (v, f, t) ∈ issuesOf a e) ∧
+    ((∀ now la ri v, e ≠ .renominate now la ri v) →
+      (issuesOf a e).map (·.1) = drawn a.nomCounter (issuesOf a e).length ∧
+      (step a e).1.nomCounter = a.nomCounter + (issuesOf a e).length) ∧
+    (∀ now la ri v, (step a (.renominate now la ri v)).1.nomCounter = a.nomCounter) :=
+  ⟨step_log_eq a e, fun now la ri v => issuesOf_renominate a now la ri v,
+   fun f t m v hm hn => step_out_nom a e f t m v hm hn,
+   fun hne => ⟨(step_counter_log a e hne).vals, (step_counter_log a e hne).cnt⟩,
+   fun now la ri v => step_renominate_counter a now la ri v⟩
+
+/-- **C20_auto_only_controlling_enabled** — "only a controlling agent with the feature enabled can renominate", for the
+nominations the agent issues by itself.
+(1) The automatic check emits nothing, or exactly ONE datagram: a Binding request with USE-CANDIDATE and ICE-CONTROLLING
+to the best succeeded pair, carrying the next value of the counter (the attribute is absent iff that value is 0) — and
+then the agent is controlling, `WithRenomination` and `WithAutomaticRenomination` are both on, a pair `cur` is selected,
+the interval has elapsed since the selector started and since the last automatic renomination, and
+`shouldRenominate cur best` holds.
+(2) Whatever the cause (`RenominateCandidate` or the automatic check, any state, any event): an agent that is in the
+controlled role after the step, or was built without `WithRenomination`, has issued nothing in it, and no datagram it
+emitted carries a nomination value. -/
+theorem C20_auto_only_controlling_enabled (a : Agent) (now : Nat) :
+    ((a.autoCheck now).2 = [] ∨
+     ∃ cur best l r, a.controlling = true ∧ a.cfg.enableRenomination = true ∧ a.cfg.autoRenom = true ∧
+      a.cfg.renomInterval ≤ now - a.selStart ∧ (∀ t, a.lastRenomTime = some t → a.cfg.renomInterval ≤ now - t) ∧
+      a.selected.bind a.pairById = some cur ∧ a.findBest now = some best ∧ a.shouldRenominate now cur best = true ∧
+      a.localOf best.l = some l ∧ a.remoteOf best.r = some r ∧ (a.findPair l r).isSome = true ∧
+      (a.autoCheck now).2 =
+        [.dgram l.addr r.addr { cls := 0, tid := 2 * a.nextTid + a.tag, user := some (a.remoteUfrag ++ ":" ++ a.localUfrag),
+                                 key := some a.remotePwd, prio := some l.prio, useCand := true,
+                                 role := some (true, a.tieBreaker),
+                                 nom := if a.nextNomValue > 0 then some a.nextNomValue else none }]) ∧
+    (∀ e, ((step a e).1.controlling = false ∨ a.cfg.enableRenomination = false) →
+      issuesOf a e = [] ∧ ∀ f t m, Out.dgram f t m ∈ (step a e).2 → m.nom = none) := by
+  refine ⟨autoCheck_out a now, fun e hq => ?_⟩
+  have h0 : issuesOf a e = [] := by
+    rcases hq with hc | he
+    · exact issuesOf_controlled a e hc
+    · exact issuesOf_disabled a e he
+  refine ⟨h0, fun f t m hm => ?_⟩
+  cases hn : m.nom with
+  | none => rfl
+  | some v =>
+    have := (step_out_nom a e f t m v hm hn).2.2.2
+    rw [h0] at this
+    cases this
+
+/-- **Tie T for the automatic path.**  `controllingSelector.checkForAutomaticRenomination` (selection.go) and
+`Agent.shouldRenominate` (agent.go) are REGENERATED from the Go source on every run; for all arguments:
+(1) the check's only effects are `lastRenominationTime = time.Now()` then `renominateCandidate(best.Local, best.Remote)`, iff
+both options are on ∧ the interval passed since the selector started ∧ (never renominated automatically ∨ the interval passed
+since) ∧ a pair is selected ∧ a best pair exists ∧ `shouldRenominate`;
+(2) the model's `autoCheck` is built from the same tests in the same order;
+(3) `shouldRenominate` is: not the same pair, candidate succeeded, and relay → host/host, or both round trips measured and
+improved by MORE than 10 ms, or the score test (the float64 sub-expressions are parameters);
+(4) the model's `shouldRenominate` is the same Boolean function of `IceModel.SoftFloat` values. -/
+theorem C20_code_automatic_check :
+    (∀ (autoRenom enableRenom : Bool) (sinceStart interval : Int64) (lastZero : Bool) (sinceLast : Int64)
+       (hasCurrent hasBest should : Bool),
+      IceGen.controllingSelector_checkForAutomaticRenomination autoRenom enableRenom sinceStart interval lastZero sinceLast
+          hasCurrent hasBest should
+        = if autoRenom && enableRenom && !decide (sinceStart < interval) && (lastZero || !decide (sinceLast < interval))
+              && hasCurrent && hasBest && should
+          then [Eff.set "s.agent.lastRenominationTime" (Val.s "now"), Eff.call "renominateCandidate(best)" []] else []) ∧
+    (∀ (a : Agent) (now : Nat),
+      a.autoCheck now =
+        if a.cfg.autoRenom && a.cfg.enableRenomination && !decide (now - a.selStart < a.cfg.renomInterval) &&
+            (match a.lastRenomTime with | none => true | some t => !decide (now - t < a.cfg.renomInterval)) then
+          match a.selected.bind a.pairById with
+          | none => (a, [])
+          | some cur =>
+            match a.findBest now with
+            | none => (a, [])
+            | some best =>
+              if a.shouldRenominate now cur best then
+                match a.localOf best.l, a.remoteOf best.r with
+                | some l, some r => ({ a with lastRenomTime := some now }).autoIssue now l r
+                | _, _ => ({ a with lastRenomTime := some now }, [])
+              else (a, [])
+        else (a, [])) ∧
+    (∀ (curNil candNil samePair : Bool) (candState : Int64) (curLocalTy curRemoteTy candLocalTy candRemoteTy : UInt8)
+       (curRTTPos candRTTPos : Bool) (curRTT candRTT : Int64) (scoreBetter : Bool),
+      IceGen.Agent_shouldRenominate curNil candNil samePair candState curLocalTy curRemoteTy candLocalTy candRemoteTy
+          curRTTPos candRTTPos curRTT candRTT scoreBetter
+        = (!(curNil || candNil || samePair || candState != 4) &&
+            (((curLocalTy == 4 || curRemoteTy == 4) && (candLocalTy == 1 && candRemoteTy == 1)) ||
+             (curRTTPos && candRTTPos && decide (curRTT - candRTT > 10000000)) || scoreBetter))) ∧
+    (∀ (a : Agent) (now : Nat) (cur cand : Pair),
+      a.shouldRenominate now cur cand =
+        (!(a.pairEqual cur cand || cand.state != .succeeded) &&
+          (((a.localTy cur == 4 || a.remoteTy cur == 4) && (a.localTy cand == 1 && a.remoteTy cand == 1)) ||
+           ((IceModel.SoftFloat.seconds cur.rtt).gt IceModel.SoftFloat.F.zero &&
+              (IceModel.SoftFloat.seconds cand.rtt).gt IceModel.SoftFloat.F.zero &&
+              decide (IceModel.SoftFloat.durationOfSeconds (IceModel.SoftFloat.seconds cur.rtt)
+                - IceModel.SoftFloat.durationOfSeconds (IceModel.SoftFloat.seconds cand.rtt) > 10000000)) ||
+           (a.quality now cand).gt ((a.quality now cur).mul IceModel.SoftFloat.c115)))) :=
+  ⟨IceTie.AgentSelector.ctlAutoCheck_tie, IceTie.AgentSelector.autoCheck_decisions,
+   IceTie.AgentSelector.shouldRenominate_tie, IceTie.AgentSelector.shouldRenominate_decisions⟩
+
+/-- non-vacuity of the tie: the check fires exactly at the interval (300 ms since the start, never renominated), not one
+nanosecond earlier, not within the interval after the last one, not with one option off; the round-trip rule needs MORE
+than 10 ms -/
+example :
+    IceGen.controllingSelector_checkForAutomaticRenomination true true 300000000 300000000 true 0 true true true
+      = [Eff.set "s.agent.lastRenominationTime" (Val.s "now"), Eff.call "renominateCandidate(best)" []] ∧
+    IceGen.controllingSelector_checkForAutomaticRenomination true true 299999999 300000000 true 0 true true true = [] ∧
+    IceGen.controllingSelector_checkForAutomaticRenomination true true 900000000 300000000 false 299999999 true true true = [] ∧
+    IceGen.controllingSelector_checkForAutomaticRenomination true false 900000000 300000000 true 0 true true true = [] ∧
+    IceGen.controllingSelector_checkForAutomaticRenomination false true 900000000 300000000 true 0 true true true = [] ∧
+    IceGen.Agent_shouldRenominate false false false 4 1 1 1 1 true true 100000000 90000000 false = false ∧
+    IceGen.Agent_shouldRenominate false false false 4 1 1 1 1 true true 100000001 90000000 false = true ∧
+    IceGen.Agent_shouldRenominate false false false 4 4 1 1 1 false false 0 0 false = true ∧
+    IceGen.Agent_shouldRenominate false false true 4 4 1 1 1 true true 100000001 90000000 true = false := by
+  decide
+
+/-- the values of the nominations the automatic check issues while `e` is executed (`RenominateCandidate`: none — its value is
+the caller's) -/
+def autoValues (a : Agent) : Ev → List Nat
+  | .renominate _ _ _ _ => []
+  | e => (issuesOf a e).map (·.1)
+
+/-- … along a run, in order -/
+def autoValuesRun (a : Agent) : List Ev → List Nat
+  | [] => []
+  | e :: es => autoValues a e ++ autoValuesRun (step a e).1 es
+
+/-- **C20_auto_values_increase** — the values one agent issues by itself strictly increase, given the counter generator:
+along EVERY run (any events — also Restart and role changes: the generator belongs to the agent, not to the selector),
+from ANY state, the values of the automatic nominations are, in order, `nomCounter + 1, nomCounter + 2, …` (mod 2^32, the
+generator is a `uint32` counter); so as long as the counter does not wrap around they are strictly increasing — in
+particular within one generation.  (`RenominateCandidate` does not draw from the counter.) -/
+theorem C20_auto_values_increase (a : Agent) (evs : List Ev) :
+    autoValuesRun a evs = drawn a.nomCounter (autoValuesRun a evs).length ∧
+    (List.foldl (fun x e => (step x e).1) a evs).nomCounter = a.nomCounter + (autoValuesRun a evs).length ∧
+    (a.nomCounter + (autoValuesRun a evs).length < 4294967296 → (autoValuesRun a evs).Pairwise (· < ·)) := by
+  have key : ∀ (evs : List Ev) (a : Agent), autoValuesRun a evs = drawn a.nomCounter (autoValuesRun a evs).length ∧
+      (List.foldl (fun x e => (step x e).1) a evs).nomCounter = a.nomCounter + (autoValuesRun a evs).length := by
+    intro evs
+    induction evs with
+    | nil => intro a; exact ⟨rfl, rfl⟩
+    | cons e es ih =>
+      intro a
+      obtain ⟨ih1, ih2⟩ := ih (step a e).1
+      have hstep : autoValues a e = drawn a.nomCounter (autoValues a e).length ∧
+          (step a e).1.nomCounter = a.nomCounter + (autoValues a e).length := by
+        by_cases hr : ∃ now la ri v, e = .renominate now la ri v
+        · obtain ⟨now, la, ri, v, rfl⟩ := hr
+          exact ⟨rfl, step_renominate_counter a now la ri v⟩
+        · have hne : ∀ now la ri v, e ≠ .renominate now la ri v := fun now la ri v h => hr ⟨now, la, ri, v, h⟩
+          have hcl := step_counter_log a e hne
+          have hav : autoValues a e = (issuesOf a e).map (·.1) := by
+            cases e <;> first | rfl | exact absurd rfl (hne _ _ _ _)
+          rw [hav, List.length_map]
+          exact ⟨hcl.vals, hcl.cnt⟩
+      simp only [autoValuesRun, List.foldl_cons, List.length_append]
+      refine ⟨?_, ?_⟩
+      · rw [drawn_append, ← hstep.1]
+        congr 1
+        rw [ih1, hstep.2]
+        simp [drawn_length]
+      · rw [ih2, hstep.2]; omega
+  refine ⟨(key evs a).1, (key evs a).2, fun h => ?_⟩
+  rw [(key evs a).1]
+  exact drawn_increasing _ _ h
+
+/-! ### non-vacuity: one agent -/
+
+namespace AutoExample
+/-- a controlling agent with both options (interval 300 ms), one local candidate (16) and two remote ones (176: high
+priority, 192: lower).  Its first checks (transaction ids 2 and 4) are answered after 100 ms (176) resp. 10 ms (192); at
+200 ms it nominates the pair of the better priority (16–176, id 6), whose answer takes another 100 ms; the tick at 400 ms
+sees the selected pair 16–176 with a round trip of 100 ms and the pair 16–192 with 10 ms -/
+def a0 : Agent :=
+  { cfg := { enableRenomination := true, autoRenom := true, renomInterval := 300000000 }, localUfrag := "uA",
+    localPwd := "pA", tieBreaker := 3 }
+def evs : List Ev :=
+  [.addLocal 0 exLocal, .addRemote 0 exHi, .addRemote 0 { exLo with prio := 2130706175 }, .start 0 true "uB" "pB",
+   .inbound 10000000 16 192 { cls := 2, tid := 4, key := some "pB" },
+   .inbound 100000000 16 176 { cls := 2, tid := 2, key := some "pB" },
+   .advance 200000000,
+   .inbound 300000000 16 176 { cls := 2, tid := 6, key := some "pB" },
+   .advance 400000000]
+/-- the USE-CANDIDATE requests of an output list: source, destination, role attribute, nomination value -/
+def useCands (os : List Out) : List (Nat × Nat × Option (Bool × Nat) × Option Nat) :=
+  os.filterMap fun
+    | .dgram f t m => if m.useCand && m.cls == 0 then some (f, t, m.role, m.nom) else none
+    | _ => none
+/-- the same agent without `WithRenomination` -/
+def a0Off : Agent := { a0 with cfg := { a0.cfg with enableRenomination := false } }
+end AutoExample
+
+set_option maxRecDepth 100000 in
+/-- the tick at 400 ms issues ONE nomination by itself: value 1 (the first draw of the counter) on the pair 16–192 — because
+its round trip is better by 90 ms (> 10 ms); the request carries USE-CANDIDATE, ICE-CONTROLLING and the value -/
+example :
+    (run AutoExample.a0 (AutoExample.evs.take 8)).selected = some 1 ∧
+    ((run AutoExample.a0 (AutoExample.evs.take 8)).checklist.map fun p => (p.id, p.rtt, p.lastResp)) =
+      [(1, 100000000, some 300000000), (2, 10000000, some 10000000)] ∧
+    issuesOf (run AutoExample.a0 (AutoExample.evs.take 8)) (.advance 400000000) = [(1, 16, 192)] ∧
+    autoValuesRun AutoExample.a0 AutoExample.evs = [1] ∧
+    (run AutoExample.a0 AutoExample.evs).nomCounter = 1 ∧
+    (run AutoExample.a0 AutoExample.evs).lastRenomTime = some 400000000 ∧
+    AutoExample.useCands (step (run AutoExample.a0 (AutoExample.evs.take 8)) (.advance 400000000)).2 =
+      [(16, 192, some (true, 3), some 1)] ∧
+    -- without `WithRenomination` the same run issues nothing
+    autoValuesRun AutoExample.a0Off AutoExample.evs = [] := by
+  refine ⟨?_, ?_, ?_, ?_, ?_, ?_, ?_, ?_⟩ <;> decide
+
+set_option maxRecDepth 100000 in
+/-- the decision itself, around its thresholds (the float64 arithmetic of `shouldRenominate`, by the kernel): an improvement
+of exactly 10 ms does not renominate, 11 ms does; beyond one second the round trip `Duration → seconds → Duration` loses a
+nanosecond for 1049 ms but not for 1059 ms, so an improvement of "exactly 10 ms" there IS more than 10 ms (1011 and 1001 ms
+both lose one: no) -/
+example :
+    let a := run AutoExample.a0 (AutoExample.evs.take 8)
+    let cur (rtt : Nat) : Pair := { (a.checklist[0]!) with rtt := rtt }
+    let cand (rtt : Nat) : Pair := { (a.checklist[1]!) with rtt := rtt }
+    a.shouldRenominate 400000000 (cur 100000000) (cand 90000000) = false ∧
+    a.shouldRenominate 400000000 (cur 100000000) (cand 89000000) = true ∧
+    IceModel.SoftFloat.durationOfSeconds (IceModel.SoftFloat.seconds 1049000000) = 1048999999 ∧
+    IceModel.SoftFloat.durationOfSeconds (IceModel.SoftFloat.seconds 1059000000) = 1059000000 ∧
+    a.shouldRenominate 400000000 (cur 1059000000) (cand 1049000000) = true ∧
+    a.shouldRenominate 400000000 (cur 1011000000) (cand 1001000000) = false := by
+  decide
+
+end Automatic
+
+/-! ### two agents: an exchange whose only nomination is issued AUTOMATICALLY -/
+
+namespace Sys2Example
+open IceModel.Sys2 (Sys)
+open IceProofs.Sys2Run
+/-- as `s0`, but A renominates by itself (interval 300 ms) -/
+def s0Auto : Sys :=
+  { s0 with a := { s0.a with cfg := { enableRenomination := true, autoRenom := true, renomInterval := 300000000 } } }
+/-- checks: the answer of 16–192 takes 10 ms, the one of 16–176 takes 100 ms; at 200 ms A nominates 16–176 (better
+priority), everything is delivered at once: both agents on 16–176, nothing in flight -/
+def preAuto : List SysEv :=
+  setup ++ dl [0, 0, 0, 0] ++ [.advance 10000000] ++ dl [2, 1, 1, 1, 1] ++ [.advance 100000000] ++ dl [0] ++ dl [0, 0] ++
+    [.advance 200000000] ++ dl [0, 0]
+/-- the tick at 400 ms: keepalive, checks of both pairs, and the automatic nomination of 16–192 with value 1; everything is
+delivered -/
+def exAuto : List SysEv := [.advance 400000000] ++ drain 10
+end Sys2Example
+
+theorem C20_example_fresh_auto : IceProofs.C20S.Fresh Sys2Example.s0Auto :=
+  ⟨⟨rfl, rfl, rfl, rfl, rfl, rfl, rfl, rfl, rfl, rfl, rfl, rfl, rfl, rfl, rfl⟩,
+   ⟨rfl, rfl, rfl, rfl, rfl, rfl⟩, ⟨rfl, rfl, rfl, rfl, rfl, rfl⟩⟩
+
+section TwoAgentAutoExample
+open IceModel.Sys2 (Sys Dgram)
+open IceProofs.Sys2Run IceProofs.C20S Sys2Example
+
+set_option maxRecDepth 100000 in
+/-- **Non-vacuity of the agreement theorem for AUTOMATIC nominations.**  Nobody calls `RenominateCandidate`; A's tick
+nominates 16–192 by itself with value 1.  Every hypothesis of `C20_quiescent_agreement` holds — the nomination is in the
+log `issued`, it is the highest one, its exchange completed, the state is quiesced — and A ends on 16–192, B on 192–16. -/
+example : Established (Sys.runs s0Auto preAuto) ∧ Exchange (Sys.runs s0Auto preAuto) exAuto
+    ∧ hist (Sys.runs s0Auto preAuto) exAuto
+        = { issued := [(1, 16, 192)], answered := [(1, 16, 192)], accepted := some (1, 192, 16) }
+    ∧ PositiveValues (hist (Sys.runs s0Auto preAuto) exAuto).issued
+    ∧ IsMax (hist (Sys.runs s0Auto preAuto) exAuto).issued (1, 16, 192)
+    ∧ Quiesced (Sys.runs (Sys.runs s0Auto preAuto) exAuto)
+    ∧ selAddrs (Sys.runs s0Auto preAuto).a = some (16, 176) ∧ selAddrs (Sys.runs s0Auto preAuto).b = some (176, 16)
+    ∧ selAddrs (Sys.runs (Sys.runs s0Auto preAuto) exAuto).a = some (16, 192)
+    ∧ selAddrs (Sys.runs (Sys.runs s0Auto preAuto) exAuto).b = some (192, 16) := by
+  decide
+
+/-- … and the theorem applied to it -/
+example : selAddrs (Sys.runs (Sys.runs s0Auto preAuto) exAuto).a = some (16, 192) ∧
+    selAddrs (Sys.runs (Sys.runs s0Auto preAuto) exAuto).b = some (mirror s0Auto.nat 16 192) :=
+  C20_quiescent_agreement s0Auto preAuto exAuto _ _ rfl rfl C20_example_fresh_auto
+    (by set_option maxRecDepth 100000 in decide) (by set_option maxRecDepth 100000 in decide)
+    (by set_option maxRecDepth 100000 in decide) (1, 16, 192) (by set_option maxRecDepth 100000 in decide)
+    (by set_option maxRecDepth 100000 in decide) (by set_option maxRecDepth 100000 in decide)
+
+end TwoAgentAutoExample
 
 end IceProps.C20
